@@ -187,6 +187,35 @@ Proof.
   destruct output as [p|]; cbn; [rewrite (H p eq_refl)|]; reflexivity.
 Qed.
 
+(** * The previous content of the -o path is irrelevant *)
+
+Lemma fs_after_delivered prev p out nl :
+  fs_after prev (delivered (Some p) out nl) p = Some out /\
+  forall q, q <> p -> fs_after prev (delivered (Some p) out nl) q = prev q.
+Proof.
+  unfold fs_after, delivered. cbn. rewrite cli_str_eqb_refl. split; auto.
+  intros q N. apply cli_str_eqb_neq in N. now rewrite N.
+Qed.
+
+Lemma fs_after_no_writes prev o : o_writes o = [] -> forall q, fs_after prev o q = prev q.
+Proof. unfold fs_after. intros ->. reflexivity. Qed.
+
+(** From "[-o] equals stdout" and "no output on failure" to the file-system statement. *)
+Lemma overwrites_from_equals (o_file o_out : outcome) p nl :
+  (exit_code o_file <> 0 -> o_stdout o_file = [] /\ o_writes o_file = []) ->
+  ((exists out, o_file = delivered (Some p) out nl /\ o_out = delivered None out nl)
+   \/ (exit_code o_file <> 0 /\ o_out = o_file)) ->
+  forall prev : fs_state,
+    (exists out, fs_after prev o_file p = Some out /\
+                 (forall q, q <> p -> fs_after prev o_file q = prev q) /\
+                 o_out = delivered None out nl)
+    \/ (exit_code o_file <> 0 /\ forall q, fs_after prev o_file q = prev q).
+Proof.
+  intros Hclean [[out [Hf Ho]] | [Hx _]] prev.
+  - left. exists out. subst o_file. destruct (fs_after_delivered prev p out nl) as [A B]. auto.
+  - right. split; auto. apply fs_after_no_writes. now apply Hclean.
+Qed.
+
 (** * wac compose *)
 
 Section ComposeProofs.
